@@ -1,7 +1,13 @@
 (* C07 -- Barriers, secondary errors and Mark references hide their payload from
-   cause analysis.  Statements only; proofs in Proofs/HiddenFacts.v. *)
+   cause analysis.  Statements only; proofs in Proofs/HiddenFacts.v, HiddenNI.v.
+
+   [hid_eq e1 e2]: e1 and e2 are the same error except for what sits behind
+   barriers (any hidden errors, same barrier message) and in the secondary
+   position of secondary-error layers (any secondaries) -- at any depth, below any
+   wrappers, inside multi-cause branches.  The theorems say that NO cause-analysis
+   function can tell them apart (non-interference), for every context. *)
 From Errv Require Import Base.Str Redact.Markers Model.Err Model.Sem Model.Details Model.Marks
-     Model.Access Model.Report Model.Codec Proofs.FastIs Proofs.MarksFacts Proofs.HiddenFacts.
+     Model.Access Model.Report Model.Std Model.Codec Proofs.FastIs Proofs.MarksFacts Proofs.HiddenFacts Proofs.HiddenNI.
 
 (* nothing hidden is reachable through Unwrap / Cause / UnwrapAll *)
 Theorem C07_not_reachable : forall i m h c s,
@@ -11,42 +17,79 @@ Theorem C07_not_reachable : forall i m h c s,
 Proof. intros. repeat split. Qed.
 Print Assumptions C07_not_reachable.
 
-(* Is / IsAny: the answer does not depend on the hidden payload, whether the
-   barrier / secondary layer is in the error or in the reference *)
-Theorem C07_is_ni : forall i m h1 h2 c s1 s2 r e,
-  is_ (Barrier i m h1) r = is_ (Barrier i m h2) r /\
-  is_ e (Barrier i m h1) = is_ e (Barrier i m h2) /\
-  is_ (Second i c s1) r = is_ (Second i c s2) r.
-Proof. intros. split; [apply barrier_is | split; [apply barrier_ref | apply secondary_is]]. Qed.
-Print Assumptions C07_is_ni.
+Theorem C07_traversal : forall e1 e2, hid_eq e1 e2 ->
+  Forall2 hid_eq (visit_all e1) (visit_all e2) /\
+  List.map go_full_name (visit_all e1) = List.map go_full_name (visit_all e2) /\
+  hid_eq (unwrap_all e1) (unwrap_all e2) /\ Forall2 hid_eq (chain e1) (chain e2).
+Proof.
+  intros e1 e2 H. split; [now apply hid_eq_visit_all|]. split; [now apply hid_eq_visit_types|].
+  split; [now apply hid_eq_unwrap_all | now apply hid_eq_chain].
+Qed.
+Print Assumptions C07_traversal.
 
-Theorem C07_accessors_barrier : forall i m h,
-  get_all_hints (Barrier i m h) = [] /\ get_all_details (Barrier i m h) = [] /\
-  get_all_issue_links (Barrier i m h) = [] /\ get_telemetry_keys (Barrier i m h) = [] /\
-  get_domain (Barrier i m h) = no_domain /\ get_context_tags (Barrier i m h) = [] /\
-  has_assertion_failure (Barrier i m h) = false /\ has_issue_link (Barrier i m h) = false /\
-  has_unimplemented (Barrier i m h) = false /\
-  (forall d, get_http_code (Barrier i m h) d = d) /\ get_grpc_code (Barrier i m h) = 2%N.
-Proof. exact barrier_accessors. Qed.
-Print Assumptions C07_accessors_barrier.
+(* Is / IsAny, with the hidden payload in the error or in the reference *)
+Theorem C07_is : forall e1 e2, hid_eq e1 e2 ->
+  (forall r, is_ e1 r = is_ e2 r) /\ (forall x, is_ x e1 = is_ x e2) /\
+  (forall rs, is_any e1 rs = is_any e2 rs) /\ (forall r, std_is e1 r = std_is e2 r).
+Proof.
+  intros e1 e2 H. repeat split; intros.
+  - now apply hid_eq_is. - now apply hid_eq_is_ref. - now apply hid_eq_is_any. - now apply hid_eq_std_is.
+Qed.
+Print Assumptions C07_is.
 
-Theorem C07_accessors_secondary : forall i c s,
-  get_all_hints (Second i c s) = get_all_hints c /\ get_all_details (Second i c s) = get_all_details c /\
-  get_all_issue_links (Second i c s) = get_all_issue_links c /\
-  get_telemetry_keys (Second i c s) = get_telemetry_keys c /\
-  get_domain (Second i c s) = get_domain c /\ get_context_tags (Second i c s) = get_context_tags c /\
-  has_assertion_failure (Second i c s) = has_assertion_failure c /\
-  has_issue_link (Second i c s) = has_issue_link c /\
-  has_unimplemented (Second i c s) = has_unimplemented c /\
-  (forall d, get_http_code (Second i c s) d = get_http_code c d) /\
-  get_grpc_code (Second i c s) = get_grpc_code c.
-Proof. exact secondary_accessors. Qed.
-Print Assumptions C07_accessors_secondary.
+(* As / HasType / If *)
+Theorem C07_as : forall e1 e2 t, hid_eq e1 e2 ->
+  match as_ e1 t, as_ e2 t with Some a, Some b => hid_eq a b | None, None => True | _, _ => False end.
+Proof. intros. now apply hid_eq_as. Qed.
+Print Assumptions C07_as.
+
+Theorem C07_has_type : forall e1 e2 r, hid_eq e1 e2 -> has_type e1 r = has_type e2 r.
+Proof. intros. now apply hid_eq_has_type. Qed.
+Print Assumptions C07_has_type.
+
+(* every Has* / Get* accessor *)
+Theorem C07_accessors : forall e1 e2, hid_eq e1 e2 ->
+  get_all_hints e1 = get_all_hints e2 /\ get_all_details e1 = get_all_details e2 /\
+  get_all_issue_links e1 = get_all_issue_links e2 /\ get_telemetry_keys e1 = get_telemetry_keys e2 /\
+  get_domain e1 = get_domain e2 /\ get_context_tags e1 = get_context_tags e2 /\
+  has_assertion_failure e1 = has_assertion_failure e2 /\ is_assertion_failure e1 = is_assertion_failure e2 /\
+  has_issue_link e1 = has_issue_link e2 /\ has_unimplemented e1 = has_unimplemented e2 /\
+  (forall d, get_http_code e1 d = get_http_code e2 d) /\ get_grpc_code e1 = get_grpc_code e2 /\
+  is_permission e1 = is_permission e2 /\ is_exist e1 = is_exist e2 /\ is_notexist e1 = is_notexist e2 /\
+  is_timeout e1 = is_timeout e2.
+Proof.
+  intros e1 e2 H.
+  split; [now apply hid_eq_hints|]. split; [now apply hid_eq_details|]. split; [now apply hid_eq_issue_links|].
+  split; [now apply hid_eq_telemetry_keys|]. split; [now apply hid_eq_domain|]. split; [now apply hid_eq_context_tags|].
+  split; [now apply hid_eq_has_assertion_failure|]. split; [now apply hid_eq_is_assertion_failure|].
+  split; [now apply hid_eq_has_issue_link|]. split; [now apply hid_eq_has_unimplemented|].
+  split; [intro; now apply hid_eq_http_code|]. split; [now apply hid_eq_grpc_code|].
+  split; [now apply hid_eq_is_permission|]. split; [now apply hid_eq_is_exist|].
+  split; [now apply hid_eq_is_notexist | now apply hid_eq_is_timeout].
+Qed.
+Print Assumptions C07_accessors.
+
+(* the message: Error() and %v do not depend on what is hidden (Handled keeps the
+   text it was built with, the WithMessage variants carry their own) *)
+Theorem C07_text : forall e1 e2, hid_eq e1 e2 ->
+  error_text e1 = error_text e2 /\ fmt_plain_short e1 = fmt_plain_short e2 /\ get_mark e1 = get_mark e2.
+Proof.
+  intros e1 e2 H. split; [now apply hid_eq_text|]. split; [now apply hid_eq_fmt_plain_short | now apply hid_eq_get_mark].
+Qed.
+Print Assumptions C07_text.
+
+Theorem C07_message : forall i smsg h, error_text (Barrier i smsg h) = strip_markers smsg.
+Proof. exact barrier_message. Qed.
+Print Assumptions C07_message.
 
 (* Mark: the layer holds the mark of the reference and nothing else of it *)
 Theorem C07_mark : forall i e r1 r2, get_mark r1 = get_mark r2 -> mark_ i e r1 = mark_ i e r2.
 Proof. exact mark_only_mark. Qed.
 Print Assumptions C07_mark.
+
+Theorem C07_mark_hidden_in_reference : forall i e r1 r2, hid_eq r1 r2 -> mark_ i e r1 = mark_ i e r2.
+Proof. exact hid_eq_mark_ref. Qed.
+Print Assumptions C07_mark_hidden_in_reference.
 
 Theorem C07_mark_accessors : forall i m c,
   get_all_hints (Wrap i (WMark m) c) = get_all_hints c /\
@@ -63,12 +106,6 @@ Theorem C07_mark_accessors : forall i m c,
 Proof. exact mark_accessors. Qed.
 Print Assumptions C07_mark_accessors.
 
-(* Handled keeps the text (its message is the rendering of the hidden error at
-   construction time), the WithMessage variants replace it *)
-Theorem C07_message : forall i smsg h, error_text (Barrier i smsg h) = strip_markers smsg.
-Proof. exact barrier_message. Qed.
-Print Assumptions C07_message.
-
 (* after transfer: the hidden payload travels inside the layer's own payload and
    is decoded into the hidden position again *)
 Theorem C07_transfer_barrier : forall i m h n,
@@ -83,10 +120,16 @@ Qed.
 Print Assumptions C07_transfer_barrier.
 
 Example C07_example :
-  let hidden := Wrap 101%positive (WHint (lit "secret hint")) (Leaf oid_canceled (LErrString (lit "context canceled"))) in
-  let b := Barrier 102%positive (lit "context canceled") hidden in
-  let e := Wrap 103%positive (WDetail (lit "d")) b in
-  get_all_hints e = [] /\ is_ e hidden = false /\
-  is_ e (Leaf oid_canceled (LErrString (lit "context canceled"))) = false /\
-  error_text e = lit "context canceled".
-Proof. vm_compute. repeat split. Qed.
+  let hidden1 := Wrap 101%positive (WHint (lit "secret hint")) (Leaf oid_canceled (LErrString (lit "context canceled"))) in
+  let hidden2 := Leaf 200%positive (LErrno 13%Z) in
+  let ctx := fun h => Wrap 103%positive (WDetail (lit "d")) (Multi 104%positive MStdJoin
+                [Barrier 102%positive (lit "context canceled") h; Leaf 105%positive (LErrString (lit "x"))]) in
+  hid_eq (ctx hidden1) (ctx hidden2) /\
+  get_all_hints (ctx hidden1) = [] /\ is_ (ctx hidden1) hidden1 = false /\
+  is_ (ctx hidden1) (Leaf oid_canceled (LErrString (lit "context canceled"))) = false /\
+  is_permission (ctx hidden2) = false.
+Proof.
+  split.
+  - apply HWrap. apply HMulti. constructor; [apply HBarrier|]. constructor; [apply hid_eq_refl|constructor].
+  - vm_compute. repeat split.
+Qed.
